@@ -7,7 +7,7 @@ CONSTANTS WScaled,     \* abandonment window, scaled down (60 in the code)
           Lag,         \* distance latest - final kept by the environment
           Modes,       \* subset of BOOLEAN: values of cfg.fin
           CLs,         \* consistency levels of the plain message
-          MineBack, ArmKinds, RemineStatus, MidScanHeads, HeldIntake, MaxHeads, MaxMine, MaxPush, MaxReorg, MaxRemine, MaxDrop, MaxFail, MaxArm, MaxReq
+          MineBack, ArmKinds, RemineStatus, MidScanHeads, HeldIntake, MaxHeads, MaxMine, MaxPush, MaxReorg, MaxRemine, MaxDrop, MaxFail, MaxArm, MaxReq, MaxRestart
 
 VARIABLE cnt
 
@@ -22,7 +22,7 @@ TxUniverse ==
     \cup {<<"t2", <<Log(FALSE, TRUE, "s1", 7, 0), Log(TRUE, FALSE, "s1", 8, 0), Log(TRUE, TRUE, "s2", 2, 1)>>>>}
 
 Budget == [head |-> MaxHeads, mine |-> MaxMine, push |-> MaxPush, reorg |-> MaxReorg, remine |-> MaxRemine,
-           drop |-> MaxDrop, fail |-> MaxFail, arm |-> MaxArm, req |-> MaxReq]
+           drop |-> MaxDrop, fail |-> MaxFail, arm |-> MaxArm, req |-> MaxReq, restart |-> MaxRestart]
 
 Bump(f) == cnt[f] < Budget[f] /\ cnt' = [cnt EXCEPT ![f] = @ + 1]
 
@@ -65,6 +65,8 @@ EnvNext ==
 WatcherNext ==
     \/ Quiet /\ \E tx \in DOMAIN rcpt : \E i \in 1..Len(txs[tx]) : PushLog(tx, i, IsMsg(txs[tx][i])) /\ Bump("push")
     \/ lq # Nil /\ (HeldIntake => hs = Nil /\ Len(hq) = 0) /\ L_BlockTime(lq.e.blk) /\ UNCHANGED cnt
+    \/ lq # Nil /\ L_BlockTimeFail(lq.e.blk) /\ UNCHANGED cnt
+    \/ Quiet /\ RunRestart(Tag) /\ Bump("restart")
     \/ L_Insert /\ UNCHANGED cnt
     \/ rs = Nil /\ IntakeOK /\ (HeadFor(Tag) > pl \/ Fails("poll")) /\ Len(hq) < 2 /\ B_Poll(Tag) /\ UNCHANGED cnt
     \/ rs = Nil /\ IntakeOK /\ Len(hq) > 0 /\ H_Head(Head(hq)) /\ UNCHANGED cnt
@@ -86,6 +88,7 @@ TypeOK ==
     /\ tried \subseteq Keys(pending)
     /\ hs # Nil => hs.seen \subseteq DOMAIN life
     /\ Cardinality(Keys(pending)) = Cardinality(pending)
+    /\ (pon /\ hs = Nil) => pending # {}
 
 \* Sanity (vacuity guards, expected to be VIOLATED when checked as invariants): see MC_EvmWatcher_reach.cfg
 NeverForwardsAfterBigJump ==
